@@ -197,8 +197,9 @@ def verify(log, fin, status, A, M, b, x0, lam, kind, limit, nreset, napply0, tag
     nA = lam.max()
     nb = np.linalg.norm(b)
     xs = [e["x"] for e in log] + [fin["x"]]
-    sx = max(np.linalg.norm(x) for x in xs)
-    sx = max(sx, np.linalg.norm(np.linalg.solve(A, b)))
+    xstar = np.linalg.solve(A, b)
+    # CG iterates never leave the A-norm ball around x* through x0
+    sx = np.linalg.norm(xstar) + np.sqrt(kappa) * np.linalg.norm(x0 - xstar) + 1e-300
     slack_g = C * EPS * kappa * (nb + nA * sx) + 1e-300
     slack_E = C * EPS * kappa * (nb * sx + nA * sx * sx) + 1e-300
     stats = dict(cg_iterations=max(len(log) - 1, 0))
@@ -206,6 +207,18 @@ def verify(log, fin, status, A, M, b, x0, lam, kind, limit, nreset, napply0, tag
     def V(what, key):
         return bad("%s: %s" % (tag, what), finding_key=key), "VIOLATION", stats
 
+    # (0) CG never increases the (true) energy; positions stay finite
+    Etrue = []
+    for k, x in enumerate(xs):
+        with np.errstate(all="ignore"):
+            Ek = S.energy(A, b, x) if np.all(np.isfinite(x)) else np.inf
+        if k and not (Ek <= Etrue[-1] + slack_E):
+            rprev = np.linalg.norm(S.grad(A, b, xs[k - 1]))
+            floor = rprev <= slack_g
+            return V("true energy rises from %.17g to %.6g at step %d (residual before the step %.2e%s)"
+                     % (Etrue[-1], Ek, k, rprev, ", i.e. at the round-off floor: CG leaves the exact solution" if floor else ""),
+                     "cg|energy-increases|%s" % ("from-roundoff-floor" if floor else "mid-run"))
+        Etrue.append(Ek)
     # (1) value / gradient of every energy consistent with its position
     Es, gs = [], []
     for k, e in enumerate(log + [fin]):
@@ -225,13 +238,17 @@ def verify(log, fin, status, A, M, b, x0, lam, kind, limit, nreset, napply0, tag
         return V("controller.start was never called", "cg|controller-not-started")
     # (2) what is returned
     last = log[-1]
-    direct = fin["obj"] is not last["obj"]   # CG returned an energy the controller has not seen
     if status not in (CONVERGED, ERROR):
         return V("CG returned status %r" % (status,), "cg|returned-status-not-final")
     niter = len(log) - 1
-    if not direct and status != last["status"]:
-        return V("CG returned status %d but the controller's last verdict was %d" % (status, last["status"]),
-                 "cg|status-differs-from-controller-verdict")
+    # direct = CG ended by itself (exact-zero residual or error) after the controller said CONTINUE
+    direct = last["status"] == CONTINUE
+    if not direct:
+        if status != last["status"]:
+            return V("CG returned status %d but the controller's last verdict was %d" % (status, last["status"]),
+                     "cg|status-differs-from-controller-verdict")
+        if fin["obj"] is not last["obj"]:
+            return V("CG does not return the energy the controller gave its verdict on", "cg|returns-other-energy")
     for k, e in enumerate(log[:-1]):
         if e["status"] != CONTINUE:
             return V("CG continued after controller verdict %d at call %d" % (e["status"], k), "cg|continues-after-verdict")
